@@ -19,7 +19,10 @@
    (d) registry stage, merge followed by optimize, no no_opt condition: merge_member_sound_h (merge alone, valid up
        to Optional members hidden in required unions), optimize_hopt (such a union is Optional after optimize),
        merge_optimize_sound (strict reading), merge_optimize_sound_ht (official ht, Any-free sets and models);
-       merge_optimize_any_refuted: false for the official ht when Any occurs. *)
+       merge_optimize_any_refuted: false for the official ht when Any occurs.
+   D32 repair (regroup folds over flat_map members_deep): members_deep_* facts before hopt; regroup_sound runs
+   split_fold on the work-list; hopt / regroup_K carry the extra condition "work-list has two items"
+   (regroup_K_old_refuted); every exported statement is unchanged. *)
 From Coq Require Import List Bool Arith NArith ZArith Lia.
 From J2M.Model Require Import Base Union Merge Optimize Detect.
 From J2M.Sem Require Import HasType NF.
@@ -593,16 +596,117 @@ Proof. destruct t; simpl; intros H; try (constructor; [exact H|constructor]). no
 Lemma wrap_opt_okt t : okt (wrap_opt t) = okt t.
 Proof. unfold wrap_opt. destruct (is_opt t); reflexivity. Qed.
 
-(* hidden Optional: Optional on top, or a union with an Optional member *)
+(* members_deep (Model/Optimize.v, D32 repair): the work-list of regroup.  Basic facts. *)
+Lemma members_deep_union us : members_deep (TUnion us) = flat_map members_deep us.
+Proof. simpl. induction us as [|x r IH]; simpl; auto; try (now rewrite IH). Qed.
+Lemma members_deep_id t : is_opt t = false -> is_union t = false -> members_deep t = [t].
+Proof. destruct t; simpl; intros; try discriminate; reflexivity. Qed.
+Lemma flat_map_members_deep_id ts :
+  Forall (fun t => is_opt t = false /\ is_union t = false) ts -> flat_map members_deep ts = ts.
+Proof.
+  induction 1 as [|x r [Hx1 Hx2] Hr IH]; simpl; auto. rewrite members_deep_id, IH; auto.
+Qed.
+Lemma members_deep_no_opt_union : forall t x, In x (members_deep t) -> is_opt x = false /\ is_union x = false.
+Proof.
+  induction t using ty_ind2; intros x Hx;
+    try (destruct Hx as [<-|[]]; split; reflexivity).
+  - simpl in Hx. destruct Hx as [<-|Hx]; [split; reflexivity|auto].
+  - rewrite members_deep_union in Hx. apply in_flat_map in Hx as [y [Hy Hx]].
+    rewrite Forall_forall in H. eapply H; eauto.
+Qed.
+Lemma members_deep_len t : is_union t = false -> 1 <= length (members_deep t).
+Proof. destruct t; simpl; intros; try discriminate; lia. Qed.
+Lemma flat_map_members_deep_len ts :
+  Forall (fun t => is_union t = false) ts -> length ts <= length (flat_map members_deep ts).
+Proof.
+  induction 1 as [|x r Hx Hr IH]; simpl; auto. rewrite app_length.
+  pose proof (members_deep_len x Hx). lia.
+Qed.
+Lemma members_deep_okt : forall t, okt t = true -> okts (members_deep t).
+Proof.
+  induction t using ty_ind2; intros O; try (constructor; [exact O|constructor]).
+  - simpl. constructor; [reflexivity|]. apply IHt. exact O.
+  - rewrite members_deep_union. apply okt_union_Forall in O.
+    induction H as [|x r Hx Hr IH]; simpl; [constructor|].
+    inversion O; subst. apply Forall_app. split; auto.
+Qed.
+Lemma flat_map_members_deep_okt ts : okts ts -> okts (flat_map members_deep ts).
+Proof. intros O. rewrite <- members_deep_union. apply members_deep_okt. now apply okt_union_Forall. Qed.
+(* every value of t is a value of some element of the work-list (JNull by the inserted TNull) *)
+Lemma members_deep_cov accepts mf uk v : forall t,
+  htg accepts mf uk v t -> Exists (htg accepts mf uk v) (members_deep t).
+Proof.
+  induction t using ty_ind2; intros Hv; try (constructor; exact Hv).
+  - simpl. inversion Hv; subst; [constructor; constructor|]. constructor 2. auto.
+  - rewrite members_deep_union. inversion Hv; subst.
+    match goal with Hi : In ?t ts, Ht : htg _ _ _ v ?t |- _ => revert t Hi Ht end. clear Hv.
+    induction H as [|x r Hx Hr IH]; intros t Hin Ht; [inversion Hin|]. simpl.
+    destruct Hin as [->|Hin].
+    + apply Exists_app. left. auto.
+    + apply Exists_app. right. eapply IH; eauto.
+Qed.
+Lemma flat_map_members_deep_cov accepts mf uk v ts :
+  Exists (htg accepts mf uk v) ts -> Exists (htg accepts mf uk v) (flat_map members_deep ts).
+Proof.
+  intros H. rewrite <- members_deep_union. apply members_deep_cov.
+  apply Exists_exists in H as [t [Hin Ht]]. econstructor; eauto.
+Qed.
+
+(* the members of a constructed union are never unions themselves *)
+Notation nounions := (Forall (fun x => is_union x = false)).
+Lemma flat_nounion : forall t, nounions (flat t).
+Proof.
+  induction t using ty_ind2; try (constructor; [reflexivity|constructor]).
+  simpl. induction H as [|x r Hx Hr IH]; [constructor|]. apply Forall_app. split; auto.
+Qed.
+Lemma add_unique_nounion u t : nounions u -> is_union t = false -> nounions (add_unique u t).
+Proof.
+  unfold add_unique. intros Hu Ht. destruct (existsb (ty_eqb t) u); auto.
+  apply Forall_app. split; auto.
+Qed.
+Lemma union_step_nounion st t :
+  nounions (fst (fst st)) -> is_union t = false -> nounions (fst (fst (union_step st t))).
+Proof.
+  destruct st as [[u ul] ls]. simpl. intros Hu Ht.
+  destruct t; simpl; try (apply add_unique_nounion; auto).
+  destruct (negb ul); simpl; auto. destruct overflow; simpl; auto.
+Qed.
+Lemma union_fold_nounion : forall l st,
+  nounions (fst (fst st)) -> nounions l -> nounions (fst (fst (fold_left union_step l st))).
+Proof.
+  induction l as [|t r IH]; simpl; intros st Hu Hl; auto.
+  inversion Hl; subst. apply IH; auto. apply union_step_nounion; auto.
+Qed.
+Lemma mk_union_nounion ts : nounions (mk_union ts).
+Proof.
+  unfold mk_union.
+  pose proof (union_fold_nounion (flatten_union ts) ([], true, []) (Forall_nil _) (flat_nounion (TUnion ts))) as U.
+  destruct (fold_left union_step (flatten_union ts) ([], true, [])) as [[u ul] ls]. simpl in U.
+  assert (S : forall u', nounions u' -> nounions (add_unique u' TStr)) by (intros; apply add_unique_nounion; auto).
+  destruct ls as [|l0 lr].
+  - destruct ul; auto.
+  - destruct ul; auto. destruct (lit_overflow (l0 :: lr)); auto.
+    apply Forall_app. split; auto.
+Qed.
+
+(* hidden Optional: Optional on top, or a union with an Optional member whose work-list in _optimize_union
+   (flat_map members_deep, D32 repair) has at least two items.  The second condition is new with the D32 repair:
+   before it every Optional member put two items on the work-list; now TOpt (TUnion []) only leaves its Null,
+   and a union whose work-list is the single Null optimises to the bare TNull (hopt_old_refuted below).  Unions
+   built by mk_union/union1 (the only ones merge_field_sets creates) have non-union members, hence one item
+   per member at least. *)
 Definition hopt (t : ty) : bool :=
-  is_opt t || match t with TUnion ts => existsb is_opt ts | _ => false end.
+  is_opt t || match t with
+              | TUnion ts => existsb is_opt ts && (2 <=? length (flat_map members_deep ts))
+              | _ => false
+              end.
 Lemma hopt_is_opt t : is_opt t = true -> hopt t = true.
 Proof. unfold hopt. intros ->. reflexivity. Qed.
 Lemma hopt_member t : hopt t = true -> exists m, In m (members t) /\ is_opt m = true.
 Proof.
   unfold hopt. intros H. apply orb_prop in H as [H|H].
   - exists t. split; auto. destruct t; try discriminate. simpl. auto.
-  - destruct t; try discriminate. apply existsb_exists in H. exact H.
+  - destruct t; try discriminate. apply andb_prop in H as [H _]. apply existsb_exists in H. exact H.
 Qed.
 Lemma flat_opt_member m : forall ts, In m ts -> is_opt m = true -> In m (flatten_union ts).
 Proof.
@@ -646,7 +750,10 @@ Proof.
   unfold union1. destruct (mk_union ts) as [|x [|y r]] eqn:E.
   - inversion K.
   - destruct K as [->|[]]. now apply hopt_is_opt.
-  - unfold hopt. cbn [is_opt orb]. apply (proj2 (existsb_exists is_opt (x :: y :: r))). exists m. auto.
+  - unfold hopt. cbn [is_opt orb]. apply andb_true_intro. split.
+    + apply (proj2 (existsb_exists is_opt (x :: y :: r))). exists m. auto.
+    + apply Nat.leb_le. pose proof (mk_union_nounion ts) as NU. rewrite E in NU.
+      apply flat_map_members_deep_len in NU. simpl length in NU at 1. lia.
 Qed.
 Lemma union1_hopt_l a b : hopt a = true -> hopt (union1 (members a ++ members b)) = true.
 Proof.
@@ -1562,8 +1669,11 @@ Section Regroup.
   Proof.
     intros O. unfold regroup.
     assert (I0 : catinv ([], [], [], [], [])) by (simpl; repeat split; constructor).
-    destruct (split_fold ts _ I0 O) as [I [_ C]].
-    destruct (fold_left (split_step registry) ts ([], [], [], [], [])) as [[[[strs objs] lists] dicts] other].
+    pose proof (flat_map_members_deep_okt ts O) as OD.
+    pose proof (fun v => flat_map_members_deep_cov accepts mf false v ts) as CD.
+    destruct (split_fold (flat_map members_deep ts) _ I0 OD) as [I [_ C]].
+    destruct (fold_left (split_step registry) (flat_map members_deep ts) ([], [], [], [], []))
+      as [[[[strs objs] lists] dicts] other].
     destruct I as [Is [Io [Il [Id Ie]]]].
     set (other' := if existsb (ty_eqb TInt) other && existsb (ty_eqb TFloat) other
                    then remove_first (ty_eqb TInt) other else other).
@@ -1599,7 +1709,7 @@ Section Regroup.
       + unfold str_result. destruct (existsb is_str strs); [repeat constructor|].
         destruct strs; [constructor|]. cbv zeta.
         destruct (resolve _ _ _) as [|q0 [|q1 qr]]; repeat constructor.
-    - intros v H. specialize (C v H). simpl in C. rewrite !Exists_app.
+    - intros v H. specialize (C v (CD v H)). simpl in C. rewrite !Exists_app.
       destruct C as [C|[C|[C|[C|C]]]].
       + left. left. left. left. auto.
       + right. apply Exists_exists in C as [t [Hin Ht]].
@@ -1740,12 +1850,67 @@ Proof.
   destruct strs; [simpl in H; lia|]. cbv zeta.
   destruct (resolve _ _ _) as [|q0 [|q1 qr]]; simpl; lia.
 Qed.
-Lemma regroup_K registry replaces peq ts : existsb is_opt ts = true ->
+(* the work-list: every item lands in exactly one category (an Optional item, which members_deep never
+   produces, would land twice), and a Null item lands in [other] *)
+Definition catlen (st : cats) : nat :=
+  let '(strs, objs, lists, dicts, other) := st in
+  length strs + length objs + length lists + length dicts + length other.
+Definition catnull (st : cats) : Prop :=
+  let '(strs, objs, lists, dicts, other) := st in In TNull other.
+Lemma classify_len registry st t : catlen (classify registry st t) = S (catlen st).
+Proof.
+  destruct st as [[[[strs objs] lists] dicts] other].
+  destruct t; simpl; try (destruct (pmem _ _)); simpl; rewrite ?app_length; simpl; lia.
+Qed.
+Lemma add_null_len st : catlen (add_null st) = S (catlen st).
+Proof. destruct st as [[[[strs objs] lists] dicts] other]. simpl. rewrite app_length. simpl. lia. Qed.
+Lemma classify_null_keep registry st t : catnull st -> catnull (classify registry st t).
+Proof.
+  destruct st as [[[[strs objs] lists] dicts] other]. simpl. intros H.
+  destruct t; simpl; try (destruct (pmem _ _)); simpl; rewrite ?in_app_iff; auto.
+Qed.
+Lemma add_null_null st : catnull (add_null st).
+Proof. destruct st as [[[[strs objs] lists] dicts] other]. simpl. rewrite in_app_iff. simpl. auto. Qed.
+Lemma split_fold_len registry : forall ts st,
+  catlen st + length ts <= catlen (fold_left (split_step registry) ts st) /\
+  (catnull st \/ In TNull ts -> catnull (fold_left (split_step registry) ts st)).
+Proof.
+  induction ts as [|t r IH]; intros st; cbn [fold_left].
+  - split; [simpl; lia|]. intros [H|[]]. exact H.
+  - destruct (IH (split_step registry st t)) as [I1 I2].
+    assert (L1 : S (catlen st) <= catlen (split_step registry st t)).
+    { rewrite split_step_eq. destruct t; rewrite ?classify_len, ?add_null_len; lia. }
+    assert (N1 : catnull st \/ t = TNull -> catnull (split_step registry st t)).
+    { rewrite split_step_eq. intros [H| ->].
+      - destruct t; try (now apply classify_null_keep). apply classify_null_keep, add_null_null.
+      - destruct st as [[[[strs objs] lists] dicts] other]. simpl. rewrite in_app_iff. simpl. auto. }
+    split; [simpl; lia|]. intros [H|[H|H]]; apply I2; auto.
+Qed.
+Lemma In_null_members_deep ts : existsb is_opt ts = true -> In TNull (flat_map members_deep ts).
+Proof.
+  intros H. apply existsb_exists in H as [m [Hm Ho]]. apply in_flat_map. exists m. split; auto.
+  destruct m; try discriminate. simpl. auto.
+Qed.
+(* Before the D32 repair the second hypothesis was not needed (every Optional member put two items into the
+   categories); now an Optional member with an empty payload work-list only leaves its Null. *)
+Example regroup_K_old_refuted :
+  let ts := [TOpt (TUnion [])] in
+  existsb is_opt ts = true /\ regroup [] [] N.eqb ts = [TNull] /\
+  optimize [] [] N.eqb 5 (TUnion ts) = Some TNull.
+Proof. vm_compute. auto. Qed.
+Lemma regroup_K registry replaces peq ts :
+  existsb is_opt ts = true -> 2 <= length (flat_map members_deep ts) ->
   In TNull (regroup registry replaces peq ts) /\ 2 <= length (regroup registry replaces peq ts).
 Proof.
-  intros H. destruct (split_fold_K registry ts ([], [], [], [], [])) as [_ K]. specialize (K H).
+  intros H HL. destruct (split_fold_len registry (flat_map members_deep ts) ([], [], [], [], [])) as [KLen KNull].
+  specialize (KNull (or_intror (In_null_members_deep ts H))).
   unfold regroup.
-  destruct (fold_left (split_step registry) ts ([], [], [], [], [])) as [[[[strs objs] lists] dicts] other].
+  destruct (fold_left (split_step registry) (flat_map members_deep ts) ([], [], [], [], []))
+    as [[[[strs objs] lists] dicts] other].
+  simpl in KLen, KNull.
+  assert (K : In TNull other /\
+    (2 <= length other \/ 1 <= length objs \/ 1 <= length lists \/ 1 <= length dicts \/ 1 <= length strs)).
+  { split; auto. pose proof (In_length_pos _ _ KNull). lia. }
   destruct K as [KN KL].
   set (other' := if existsb (ty_eqb TInt) other && existsb (ty_eqb TFloat) other
                  then remove_first (ty_eqb TInt) other else other).
@@ -1795,9 +1960,10 @@ Lemma optimize_hopt registry replaces peq fuel t t' :
   optimize registry replaces peq fuel t = Some t' -> hopt t = true -> is_opt t' = true.
 Proof.
   intros E H. unfold hopt in H. apply orb_prop in H as [H|H]; [eapply optimize_is_opt; eauto|].
-  destruct t; try discriminate. destruct fuel; [discriminate|]. rewrite optimize_S in E.
+  destruct t; try discriminate. apply andb_prop in H as [H HL]. apply Nat.leb_le in HL.
+  destruct fuel; [discriminate|]. rewrite optimize_S in E.
   destruct (olist (optimize registry replaces peq fuel) (regroup registry replaces peq ts)) as [types|] eqn:EL; [|discriminate].
-  apply olist_Forall2 in EL. destruct (regroup_K registry replaces peq ts H) as [RN RL].
+  apply olist_Forall2 in EL. destruct (regroup_K registry replaces peq ts H HL) as [RN RL].
   apply (finish_opt types); auto.
   - rewrite <- (F2_length _ _ _ EL). exact RL.
   - clear -EL RN. induction EL as [|x x' r r' Hx F IH]; [contradiction|].
